@@ -1221,10 +1221,14 @@ impl Unit {
 
 	fn reduce_hashmap<I: Interrupt>(
 		hashmap: HashMap<BaseUnit, Complex>,
+		single_unit: bool,
 		int: &I,
 	) -> FResult<HashmapScaleOffset> {
+		// only a plain temperature (`5 °C`) is an absolute temperature; inside a
+		// compound unit (`°C/min`, also `°C min/s`) a degree is just a scale
 		let check = |s: &'static str| -> FResult<bool> {
-			Ok(hashmap.len() == 1
+			Ok(single_unit
+				&& hashmap.len() == 1
 				&& match hashmap.get(&BaseUnit::new(Cow::Borrowed(s))) {
 					None => false,
 					Some(c) => c.compare(&1.into(), int)? == Some(Ordering::Equal),
@@ -1315,8 +1319,10 @@ impl Unit {
 	) -> FResult<ScaleFactor> {
 		let (hash_a, scale_a) = from.to_hashmap_and_scale(int)?;
 		let (hash_b, scale_b) = into.to_hashmap_and_scale(int)?;
-		let (hash_a, adj_a, offset_a) = Self::reduce_hashmap(hash_a, int)?;
-		let (hash_b, adj_b, offset_b) = Self::reduce_hashmap(hash_b, int)?;
+		let (hash_a, adj_a, offset_a) =
+			Self::reduce_hashmap(hash_a, from.components.len() == 1, int)?;
+		let (hash_b, adj_b, offset_b) =
+			Self::reduce_hashmap(hash_b, into.components.len() == 1, int)?;
 		if compare_hashmaps(&hash_a, &hash_b, int)? {
 			Ok(ScaleFactor {
 				scale_1: scale_a.mul(&adj_a, int)?,
